@@ -50,7 +50,7 @@ USERS = {  # name -> (password, {db: privilege})
     "c19sv": ("Scr4tch-victim#5", {}),
 }
 CLASS_USER = {"ro": "c19ro", "wo": "c19wo", "other": "c19other", "admin": "admin"}
-SENTINELS = ["c19tagA", "c19tagB", "c19tagC", "c19strval"]  # stored values that only a reader of the data can know
+SENTINELS = ["c19tagA", "c19tagB", "c19tagC", "c19strval", "17171.5", "27272.5", "31337.25"]  # stored values that only a reader of the data can know
 T0 = 1700000000  # fixed timestamps, no wall clock in requests
 FAR = 4102444800  # 2100-01-01, exp of bearer tokens
 
@@ -559,12 +559,19 @@ def class_has(cls, priv, db):
     return have is not None and (have == priv or have == "ALL")
 
 
+SELECT_FAMILY = {"SelectStatement", "ExplainStatement", "WithSelectStatement"}
+
+
 def statement_requirement(ex, stmts):
-    """-> Req from the declared privileges of every statement (evaluated for the fixture substitution) and the floor."""
+    """-> Req from (1) the declared privileges of every statement (evaluated for the fixture substitution), (2) the type floor and
+    (3) the reference floor: every Measurement node the harness found anywhere in the statement (reflection walk, independent of
+    RequiredPrivileges) needs READ on its database (WRITE for an INTO target and for DELETE / DROP SERIES).
+    Classes that only the reference floor of a non-SELECT statement excludes are `evidence_only`: what `FROM db..m` means in
+    SHOW / DELETE is the implementation's choice, so there only an observed foreign effect (digest, stored value) counts."""
     urldb = {"db": D1, "odb": D2, "": ""}[ex.get("urldb", "db")]
-    suff = set()
+    suff, evidence_only = set(), set()
     for cls in ("ro", "wo", "other"):
-        ok = True
+        ok, ok_without_refs_outside_select = True, True
         for st in stmts:
             needs = []  # (priv, db)
             admin = False
@@ -572,31 +579,47 @@ def statement_requirement(ex, stmts):
                 if p["admin"]:
                     admin = True
                 else:
-                    needs.append((p["privilege"].replace(" PRIVILEGES", "").replace("ALL", "ALL"), p["name"] or urldb))
+                    needs.append((p["privilege"].replace(" PRIVILEGES", ""), p["name"] or urldb))
             t = st["type"]
-            if t in FLOOR_ADMIN:
+            if t in FLOOR_ADMIN or (st.get("error") or "").startswith("RequiredPrivileges"):
                 admin = True
             if t in FLOOR_READ and not needs and not admin:
                 needs.append(("READ", urldb))
             if t in FLOOR_WRITE and not any(n[0] in ("WRITE", "ALL") for n in needs) and not admin:
                 needs.append(("WRITE", urldb))
+            refneeds = []
+            for r in st.get("refs") or []:
+                db = r["db"] or urldb
+                if r["role"] == "write" or t in ("DeleteSeriesStatement", "DeleteStatement", "DropSeriesStatement"):
+                    refneeds.append(("WRITE", db))
+                else:
+                    refneeds.append(("READ", db))
             if admin:
-                ok = False
+                ok = ok_without_refs_outside_select = False
                 break
             for priv, db in needs:
-                if priv == "NO":
-                    continue
+                if priv != "NO" and (not db or not class_has(cls, priv, db)):
+                    ok = ok_without_refs_outside_select = False
+            for priv, db in refneeds:
                 if not db or not class_has(cls, priv, db):
                     ok = False
-            if not ok:
+                    if t in SELECT_FAMILY:
+                        ok_without_refs_outside_select = False
+            if not ok and not ok_without_refs_outside_select:
                 break
         if ok:
             suff.add(cls)
+        elif ok_without_refs_outside_select:
+            evidence_only.add(cls)
     names = []
     for st in stmts:
-        names.append("%s[%s]" % (st["type"], ",".join(("admin" if p["admin"] else "%s on %s" % (p["privilege"], p["name"] or "<db>")) for p in st["privs"]) or "none"))
+        dbs = sorted({"%s %s" % ("WRITE" if r["role"] == "write" else "READ", r["db"] or "<db>") for r in st.get("refs") or []})
+        names.append("%s[declared: %s; measurements referenced: %s]" % (
+            st["type"], ",".join(("admin" if p["admin"] else "%s on %s" % (p["privilege"], p["name"] or "<db>")) for p in st["privs"]) or "none",
+            ", ".join(dbs) or "none"))
     r = Req("; ".join(names), suff)
     r.anonymous = False
+    r.evidence_only = evidence_only
     return r
 
 
@@ -640,11 +663,15 @@ class World:
         if db:
             p["db"] = db
         pa, hd = _basic(*ADMIN)
-        st, body, _ = self.http(method, "/query", params=p, headers=hd)
-        try:
-            js = json.loads(body)
-        except ValueError:
-            js = None
+        for attempt in range(40):
+            st, body, _ = self.http(method, "/query", params=p, headers=hd)
+            try:
+                js = json.loads(body)
+            except ValueError:
+                js = None
+            if js is not None or st in (401, 403):
+                break
+            time.sleep(0.25)  # an empty or truncated answer right after start under load: ask again (administrator set-up only)
         if expect_ok and (st != 200 or js is None or any("error" in r for r in js.get("results", []))):
             raise ToolError("admin statement %r answered %s %r" % (q[:200], st, body[:300]))
         return st, js
@@ -732,8 +759,8 @@ class World:
             # log keeper: points cannot be written through /write (the server does not survive it); the fixture is catalogue only
             self.ensure_logstreams()
             return
-        lines1 = "%s,host=c19tagA v=1,s=\"c19strval\" %d000000000\n%s,host=c19tagB v=2 %d000000000" % (MST, T0, MST, T0 + 1)
-        lines2 = "c19m2,host=c19tagC v=3 %d000000000" % T0
+        lines1 = "%s,host=c19tagA v=17171.5,s=\"c19strval\" %d000000000\n%s,host=c19tagB v=27272.5 %d000000000" % (MST, T0, MST, T0 + 1)
+        lines2 = "c19m2,host=c19tagC v=31337.25 %d000000000" % T0
         for db, lines in ((D1, lines1), (S1, lines1), (D2, lines2), (S2, lines2)):
             st, body = self.admin_write(db, lines)
             if st != 204 and first:
@@ -777,7 +804,7 @@ class World:
         if self.product == "logkeeper":
             self.ensure_logstreams()
         else:
-            self.admin_write(S1, "%s,host=c19tagA v=1,s=\"c19strval\" %d000000000" % (MST, T0))
+            self.admin_write(S1, "%s,host=c19tagA v=17171.5,s=\"c19strval\" %d000000000" % (MST, T0))
 
     FIXROWS = {D1: {(MST, T0 * 10**9, "c19tagA"), (MST, (T0 + 1) * 10**9, "c19tagB")}, D2: {("c19m2", T0 * 10**9, "c19tagC")}}
 
@@ -1055,6 +1082,10 @@ def send(world, rq, cred):
     return world.http(rq["method"], rq["path"], params=params, body=body, headers=headers)
 
 
+AUTH_ERR = re.compile(r"authoriz|not authorized|privilege|permission|requires (READ|WRITE|ALL|admin)|no user provided", re.I)
+FOREIGN_SENTINELS = {"ro": ["c19tagC", "31337.25"], "wo": ["c19tagC", "31337.25"], "other": ["c19tagA", "c19tagB", "c19strval", "17171.5", "27272.5"]}
+
+
 def only_errors(body):
     """/query: HTTP 200 whose every result is an error and carries no series."""
     try:
@@ -1114,6 +1145,7 @@ def run_case(world, case, creds, rep, only=None):
             continue
         verdict = case.req.verdict(cls)
         answer_only = False
+        evidence_only = verdict == "insufficient" and cls in getattr(case.req, "evidence_only", ())
         if case.req.anonymous:
             # liveness/status/pre-flight: may answer anybody, but a credential-less request must still change nothing and
             # must not hand out stored values -> judged like an insufficient case without the status oracle
@@ -1162,8 +1194,17 @@ def run_case(world, case, creds, rep, only=None):
                 changed.append("control probe (administrator write): %s -> %s" % (ctl0, ctl1))
         if rq.get("fs_absent") and os.path.exists(rq["fs_absent"]):
             changed.append("file system: %s was created" % rq["fs_absent"])
-        leak = [s for s in SENTINELS if s.encode() in body and s not in request_text(rq, cred)]
+        watch_for = FOREIGN_SENTINELS.get(cls, SENTINELS) if evidence_only else SENTINELS
+        leak = [s for s in watch_for if s.encode() in body and s not in request_text(rq, cred)]
         rejected = st in (401, 403) or (case.pattern == "/query" and st == 200 and only_errors(body))
+        if case.pattern == "/query" and st == 200 and rejected and not AUTH_ERR.search(body.decode("latin1")):
+            # turned away by an error that does not mention authorisation (execution error after the authorisation step?)
+            rep["counters"]["rejected_200_error_not_about_authorisation"] += 1
+            if len(rep["other_status"]) < 60:
+                rep["other_status"].append("%s -> 200 %s" % (key, body[:140].decode("latin1")))
+        if evidence_only and not rejected:
+            rep["counters"]["served_foreign_qualifier_without_foreign_effect" if not (changed or leak) else "served_foreign_qualifier_with_effect"] += 1
+            rejected = True  # no status oracle here, see statement_requirement
         if answer_only:
             rep["counters"]["anonymous_answers_checked"] += 1
             rep["counters"]["insufficient_cases"] -= 1
@@ -1387,6 +1428,16 @@ def statement_cases(product, s1, rep):
             continue
         for st in info["stmts"]:
             covered.add(st["type"])
+            for k in st.get("source_kinds") or []:
+                covered.add("src:" + k)
+            for j in st.get("join_types") or []:
+                covered.add("join:" + j)
+            if ex.get("srcpos"):
+                # source positions in which this example puts a database other than the URL database
+                u = {"db": D1, "odb": D2}[ex["urldb"]]
+                for r in st.get("refs") or []:
+                    if r["db"] and r["db"] != u:
+                        covered.add("foreignpos:" + r["path"].lstrip(">").replace("SelectStatement.Sources>", "").replace("SubQuery.Statement", "SubQuery"))
         req = statement_requirement(ex, info["stmts"])
         urlkey = ex.get("urldb", "db")
 
@@ -1450,6 +1501,9 @@ def sweep(tier, product, s1, scratch, rep, deadline_at, only=None, shard=0, nsha
             if case.kind == "stmt" and tier == "quick":
                 # quick: statement kinds over none + basic + the valid bearer tokens; every transport and variant in thorough
                 cr = [c for c in creds if c[1] in ("-", "basic") or (c[1] == "bearer" and c[2] == "" and c[0] in ("ro", "wo", "other"))]
+                if case.ex and case.ex.get("srcpos"):
+                    # foreign database in one source position: the user classes over basic and bearer, plus no credentials
+                    cr = [c for c in cr if c[0] in ("none", "ro", "wo", "other", "admin") and c[2] == ""]
             run_case(world, case, cr, rep, only=only[1] if only else None)
         if not only and shard == 0 and product == "basic" and time.time() <= deadline_at:
             flip_test(world, rep)  # (log keeper: /write is not usable, the privilege code is the same)
@@ -1551,6 +1605,20 @@ def run(tier, replay):
         if os.environ.get("VERIF_C19_DUMP"):
             with open(os.environ["VERIF_C19_DUMP"], "w") as fh:
                 json.dump([v for r in reps for v in r.get("violations", [])], fh, indent=1)
+        src_unc = [t for t in s1.get("source_types", []) if "src:" + t not in covered]
+        join_unc = [j for j in s1.get("join_types", []) if "join:" + j not in covered]
+        fpos = sorted(c[len("foreignpos:"):] for c in covered if c.startswith("foreignpos:"))
+        rep["counters"]["source_node_types"] = len(s1.get("source_types", []))
+        rep["counters"]["source_node_types_uncovered"] = len(src_unc)
+        rep["counters"]["join_types"] = len(s1.get("join_types", []))
+        rep["counters"]["join_types_uncovered"] = len(join_unc)
+        rep["counters"]["foreign_database_source_positions"] = len(fpos)
+        rep["counters"]["source_position_examples"] = sum(1 for e in EXAMPLES if e.get("srcpos"))
+        if src_unc:
+            rep["notes"].append("Source node types (go/ast over the influxql package) without an accepted example, uncovered: " + ", ".join(src_unc))
+        if join_unc:
+            rep["notes"].append("join types without an accepted example, uncovered: " + ", ".join(join_unc))
+        rep["notes"].append("AST positions in which an example names a foreign database: " + "; ".join(fpos))
         unc = [t for t in types if t not in covered]
         rep["counters"]["statement_types"] = len(types)
         rep["counters"]["statement_types_covered"] = len([t for t in types if t in covered])
@@ -1614,11 +1682,14 @@ MANIFEST = dict(
          "sent with no, malformed, unknown-user, wrong-password, read-only, write-only, other-database and administrator credentials over "
          "basic, URL, Token and bearer transports. Insufficient credentials must be turned away (401/403 or error-only results), must leave "
          "the catalogue+data digest, the server-control probe and the file system probe unchanged and must not return stored values; "
-         "GRANT/REVOKE must flip exactly one user's ability on exactly one database. Exhaustive over the finite table; statement types "
-         "without a parseable example are listed as uncovered.",
+         "GRANT/REVOKE must flip exactly one user's ability on exactly one database. A generator puts a foreign database into every source "
+         "position the grammar offers (plain, list, regex, each side of every join spelling with measurement and sub-query operands, "
+         "sub-query depth 1-2, union arms, CTE, INTO target/source, SHOW ... ON / FROM); the needed privilege there comes from a "
+         "reflection walk over the parsed AST (every Measurement node), not from RequiredPrivileges. Exhaustive over the finite table; "
+         "statement types and Source node types without a parseable example are listed as uncovered.",
     note="Trusts: the digest observes every effect (SHOW statements, raw rows of the fixture databases, login/write probes); the rule table "
          "that assigns a needed privilege to non-/query routes and the floor table for statements (c19.py); one example per statement type. "
          "Not covered: arrow-flight port, ts-meta/ts-store HTTP ports, TLS/white-list, user lock-out timing, rwuser accounts, log-store "
-         "reads with stored records (records cannot be written in this environment). Known findings on the unchanged tree: POST /failpoint "
-         "and POST /api/v1/tsdb/{tsdb} (fixes proposed), /debug/pprof anonymous, log-store management API without authorisation.",
+         "reads with stored records (records cannot be written in this environment). Known findings on the unchanged tree: /debug/pprof anonymous, log-store management API without "
+         "authorisation (POST /failpoint and POST /api/v1/tsdb/{tsdb} were found by this check and are fixed in /repo).",
 )
